@@ -174,7 +174,9 @@ def t_merge_lines(E, n, cr):
 
 TASKS = [
     Task('converter.protect/unprotect', t_cipher_roundtrip,
-         cases=[{'n': n, 'first': f} for n in (0, 1, 2, 142, 143, 144, 145, 290) for f in ('protect', 'unprotect')]),
+         cases=[{'n': n, 'first': f} for n in (0, 1, 2, 142, 143, 144, 145, 290, 600) for f in ('protect', 'unprotect')]),
+    Task('converter.protect/unprotect (long streams)', t_cipher_roundtrip, tier='thorough',
+         cases=[{'n': n, 'first': f} for n in (511, 512, 513, 1024, 1200, 4200) for f in ('protect', 'unprotect')]),
     Task('Program.save/load', t_save_load, cases=[{'mode': m, 'n': n} for m in (b'P', b'B') for n in (2, 3, 40, 150)]),
     Task('Program.save (protected program)', t_protected_save, cases=[{'mode': m} for m in (b'P', b'B', b'A')]),
     Task('Program.merge (delivered lines)', t_merge_lines,
